@@ -200,6 +200,11 @@ class HarnessGen:
         for r in spec.get('requires', []):
             if '__CPROVER_is_fresh' in r or r in early:
                 continue
+            if getattr(self, 'native_skip_ensures', False) and 'bv_t' in r:
+                L.append('#ifndef QX_NATIVE')
+                L.append('  __CPROVER_assume(%s);' % deimply(r))
+                L.append('#endif')
+                continue
             L.append('  __CPROVER_assume(%s);' % deimply(r))
         ens, olds = find_olds([deimply(e) for e in spec.get('ensures', [])])
         for nm, e in olds:
@@ -256,9 +261,13 @@ class HarnessGen:
             L.append('#else')
             L.append('  %s%s;' % ('' if isvoid else ret.decl('qx_ret', keep_const=False) + ' = ', call_low))
             L.append('#endif')
+        if getattr(self, 'native_skip_ensures', False):
+            L.append('#ifndef QX_NATIVE')
         for i, e in enumerate(ens):
             e = e.replace('__CPROVER_return_value', 'qx_ret')
             L.append('  __CPROVER_assert(%s, "ensures.%d");' % (e, i + 1))
+        if getattr(self, 'native_skip_ensures', False):
+            L.append('#endif')
         L.append('  QX_DONE();')
         # prototype of the real function (native only)
         L0 = ['#ifdef QX_NATIVE', self.lw.proto(info['node']).replace(self.fn + '(', 'qx_real_' + self.fn + '(', 1) + ';', '#endif']
